@@ -122,7 +122,7 @@ def claimed_promise(ctx, db, rid):
 #  through coro_queue::resume / a suspend point flushed into it, or installs a queue itself)
 BUILT_ON = {
     'C01': ('awaiter',), 'C02': ('future',), 'C03': ('future', 'awaiter'),
-    'C04': ('future', 'awaiter', 'suspend_point', 'coro_queue'), 'C05': ('suspend_point',), 'C06': ('coro_queue',),
+    'C04': ('future', 'awaiter', 'suspend_point', 'coro_queue', 'storage'), 'C05': ('suspend_point',), 'C06': ('coro_queue',),
     'C07': ('awaiter', 'suspend_point', 'coro_queue'), 'C08': ('awaiter', 'suspend_point', 'coro_queue'),
     'C09': ('future', 'awaiter', 'suspend_point', 'coro_queue'), 'C10': ('future', 'awaiter', 'suspend_point', 'coro_queue', 'queue'),
     'C11': ('future', 'awaiter', 'suspend_point', 'coro_queue', 'async'), 'C12': ('future', 'awaiter', 'suspend_point', 'coro_queue', 'generator', 'async'),
@@ -162,6 +162,7 @@ def built_on(ctx, db, pid):
                   ('suspend-point', 'moved-from-is-empty', lambda r: C06.source_reset(ctx, db, r)),
                   ('suspend-point', 'handles-consumed-once', lambda r: C06.consumers_clear(ctx, db, r)),
                   ('suspend-point', 'awaiter-queued-once', lambda r: C06.self_inclusion(ctx, db, r)),
+                  ('suspend-point', 'listed-handles-queued-once', lambda r: C06.listed_queued_once(ctx, db, r)),
                   ('suspend-point', 'collected-is-removed', lambda r: C06.collected_is_removed(ctx, db, r)),
                   ('suspend-point', 'growth', lambda r: C06.growth(ctx, db, r)),
                   ('suspend-point', 'handles-leave-in-arrival-order', lambda r: __import__('coclint.props.C05', fromlist=['x']).order_kept(ctx, db, r))]
@@ -207,6 +208,15 @@ def built_on(ctx, db, pid):
                   ('queue', 'never-empty-access', lambda r: C09.nonempty(ctx, db, r, ['cocls::queue'])),
                   ('queue', 'locks', lambda r: locks.check_guarded(ctx, db, r, {k: v for k, v in GUARDED.items() if k.startswith('cocls::queue::')}, ['cocls::queue'], per_instance=True, floor=5)),
                   ('queue', 'waiters-held-by-value', lambda r: C09.held_by_value(ctx, db, r))]
+    if 'storage' in comps:
+        # the frame of a with_allocator<Storage, async<T>> coroutine lives in the block the policy hands out: a block that is shared by two live
+        # frames, too small, or never released breaks "body runs once, frame and locals destroyed once" for those coroutines
+        from . import C19
+        C19._DB[0] = db
+        items += [('storage', 'trailer-inside-the-block', lambda r: C19.trailers(ctx, db, r)),
+                  ('storage', 'fallback-released-by-its-marker', lambda r: C19.pairing(ctx, db, r)),
+                  ('storage', 'shared-block-exclusive', lambda r: C19.reuse(ctx, db, r)),
+                  ('storage', 'frame-memory-routed-through-the-policy', lambda r: C19.routing(ctx, db, r))]
     for comp, name, fn in items:
         rid = '%s.built-on-%s.%s' % (pid, comp, name)
         ctx.dedupe = True
